@@ -5,11 +5,10 @@
  "enforce": ["libcperciva_SHA256_Buf"],
  "replace": ["libcperciva_SHA256_Init", "SHA256_Update_internal", "SHA256_Final_internal"],
  "annotate": ["alg/sha256.c", "util/insecure_memzero.c"],
- "defines": ["VERIF_HALLOC", "SHA_MAXOBJ=130"],
- "thorough_defines": ["SHA_MAXOBJ=1024"],
+ "defines": ["VERIF_HALLOC", "SHA_MAXOBJ=0xffffffff"],
  "loop_contracts": false,
  "timeout": 300,
- "assumptions": ["input object size <= SHA_MAXOBJ bytes (symbolic object bound only)",
+ "assumptions": ["input object size < 2^32 bytes (SHA_MAXOBJ)",
                  "insecure_memzero_ptr == insecure_memzero_func (its static initialiser; no library code assigns it)",
                  "compression function uninterpreted (trace contracts); L-sub links it to FIPS 180-4 6.2.2"]
 }
